@@ -82,7 +82,7 @@ int rstr_find(struct rstr *rs, char *s, int n, int *grps, int flg)
 	char *r;
 	if (rs->rs)
 		return rset_find(rs->rs, s, n, grps, flg);
-	if ((rs->lbeg && (flg & RE_NOTBOL)) || (rs->lend && (flg & RE_NOTEOL)))
+	if (rs->lbeg && (flg & RE_NOTBOL))
 		return -1;
 	len = strlen(rs->str);
 	beg = s;
